@@ -300,7 +300,12 @@ func (s *Solver) Check(pc []*Term, extra *Term, modelVars []*Term) (Result, Mode
 	case line == "unknown" || line == "timeout":
 		res = Unknown
 	default:
-		s.Stats.Errors = append(s.Stats.Errors, "solver said: "+line)
+		// z3 reports its own :timeout inside check-sat-using as an error line
+		// ("tactic failed: canceled"): that is a timeout, answered by the portfolio
+		// below; anything else is recorded and makes the run inconclusive
+		if !strings.Contains(line, "canceled") && !strings.Contains(line, "timeout") {
+			s.Stats.Errors = append(s.Stats.Errors, "solver said: "+line)
+		}
 		// drain: restart to be safe
 		s.restart()
 		r2, m2 := s.fallback(pc, extra, modelVars)
